@@ -27,6 +27,8 @@ type c08opsTpl struct {
 	Args    string   // worker arguments after id, for goroutine id
 	Spawn   string   // replaces the default spawn loop when not empty
 	Post    string   // statements in main after the spawn loop, before wg.Wait()
+	After   string   // statements in main after wg.Wait(), before the results are printed
+	Skip    string   // not generated: the unchanged tree disagrees with compiled Go here for a reason outside C08 (label)
 }
 
 const c08opsLoop = "for x := 1; x <= @K@; x++ "
@@ -331,6 +333,10 @@ func c08opsSource(sub int) string {
 	if t.Post != "" {
 		b.WriteString("\t" + t.Post + "\n")
 	}
-	b.WriteString("\twg.Wait()\n\tfor _, v := range res {\n\t\tfmt.Println(v)\n\t}\n}\n")
+	b.WriteString("\twg.Wait()\n")
+	if t.After != "" {
+		b.WriteString("\t" + t.After + "\n")
+	}
+	b.WriteString("\tfor _, v := range res {\n\t\tfmt.Println(v)\n\t}\n}\n")
 	return b.String()
 }
